@@ -192,10 +192,10 @@ func trunc(s string, n int) string {
 }
 
 const (
-	sigObjErr   = "runtime-error-with-object-value:aborts-run-and-remaining-inputs"
-	sigRawEmpty = "raw-input:empty-input-yields-one-empty-line"
-	sigRawfile  = "jq-spelling:--rawfile:rejected-as-unknown-option"
-	sigNameLost = "input-after-unreadable-input:decoded-twice:file-name-missing-in-display"
+	sigObjErr     = "runtime-error-with-object-value:aborts-run-and-remaining-inputs"
+	sigRawEmpty   = "raw-input:empty-input-yields-one-empty-line"
+	sigJqSpelling = "jq-spelling:%s:rejected-as-unknown-option"
+	sigNameLost   = "input-after-unreadable-input:decoded-twice:file-name-missing-in-display"
 )
 
 // check runs one case and judges it. It returns the violation signature ("" when
@@ -237,7 +237,7 @@ func (w *worker) check(c Case) (sig, what string, pr *Pred) {
 	}
 	// known defect classes: does the observation match the defect model exactly?
 	if pr.JqSpell != "" && res.Exit == 2 && strings.Contains(string(res.Stderr), pr.JqSpell+": no such argument") {
-		return sigRawfile, fmt.Sprintf("%s: %s (jq manual: --rawfile variable-name filename)", descr(c), trunc(string(res.Stderr), 80)), pr
+		return fmt.Sprintf(sigJqSpelling, pr.JqSpell), fmt.Sprintf("%s: %s (jq manual: --rawfile variable-name filename)", descr(c), trunc(string(res.Stderr), 80)), pr
 	}
 	if pr.ObjErr {
 		k1, _ := judge(predOpts{q: qObjErr})
@@ -444,9 +444,6 @@ func buildGroups(r *core.Run, alpha []Token) []group {
 				canon = append(canon, t)
 			}
 		}
-		if want("T1") {
-			oneTok("T1", alpha, lists2, progs5)
-		}
 		listsT2 := [][]string{{}, {"g1"}, {"g2", "missing"}}
 		progsT2 := []string{progDot, progPartial, progBad}
 		two := func(section string, as, bs []Token, skipCanon bool) {
@@ -468,6 +465,9 @@ func buildGroups(r *core.Run, alpha []Token) []group {
 		}
 		if want("T2c") {
 			two("T2c", canon, canon, false)
+		}
+		if want("T1") {
+			oneTok("T1", alpha, lists2, progs5)
 		}
 		if want("T1b") {
 			oneTok("T1b", canon, lists3[len(lists2):], progs5)
@@ -577,7 +577,7 @@ func run(r *core.Run) {
 		for _, s := range secs {
 			r.Count("groups_done:"+s, int64(sectionDone[s]))
 		}
-		r.NotExhaustive("deadline reached before all groups were enumerated (sections are enumerated in the order S1,S2,T1,T2c,T1b,T2; see groups_done counters)")
+		r.NotExhaustive("deadline reached before all groups were enumerated (sections are enumerated in the order S1,S2,T2c,T1,T1b,T2; see groups_done counters)")
 	} else {
 		for s := range sectionTotal {
 			r.Section(s)
